@@ -244,6 +244,11 @@ MASKS = {
 }
 
 
+# element kinds of the cells: float64 (the only kind the test-suite uses), int64 (ids / timestamps: NOT exactly representable in
+# float64 above 2**53), complex128 (not representable in any float), float32 (representable, but a different dtype)
+CELL_DTYPES = ["float64", "int64", "complex128", "float32"]
+
+
 def sym_names(ctx, base, n):
     xs = [ctx.fresh(f"{base}{i}", "str") for i in range(n)]
     for i in range(n):
@@ -252,14 +257,14 @@ def sym_names(ctx, base, n):
     return xs
 
 
-def build_data(ctx, shape, nf, mask, tag="c"):
+def build_data(ctx, shape, nf, mask, tag="c", dtype=None):
     """Nested list of the given shape; populated leaves are arbitrary (rows symbolic) x nf arrays, pairwise distinct objects."""
     leaves = {}
 
     def rec(prefix, dims):
         if not dims:
             if MASKS[mask](prefix):
-                leaf = cm.fresh_cell(ctx, f"{tag}_" + "_".join(map(str, prefix)), nf)
+                leaf = cm.fresh_cell(ctx, f"{tag}_" + "_".join(map(str, prefix)), nf, dtype=dtype)
             else:
                 leaf = None
             leaves[prefix] = leaf
@@ -269,10 +274,11 @@ def build_data(ctx, shape, nf, mask, tag="c"):
     return rec((), tuple(shape)), leaves
 
 
-def mk_vec(ctx, shape, nf, mask="full", tag="v", metadata=None):
+def mk_vec(ctx, shape, nf, mask="full", tag="v", metadata=None, dtype=None):
+    """dtype: storage dtype of every populated cell (ghost tag, see c11_models) or None = not tracked."""
     fields = sym_names(ctx, f"{tag}_field", nf)
     units = [ctx.fresh(f"{tag}_unit{i}", "str") for i in range(nf)]
-    data, leaves = build_data(ctx, shape, nf, mask, tag=f"{tag}c")
+    data, leaves = build_data(ctx, shape, nf, mask, tag=f"{tag}c", dtype=dtype)
     o = Obj(Vector, dict(_shape=tuple(shape), _fields=fields, _units=units, _name=f"{tag}", _data=data,
                          _metadata={} if metadata is None else metadata))
     return o
@@ -298,6 +304,7 @@ def snap_vec(o):
               list_contents=[list(x) for x in sublists(f.get("_data"), len(f.get("_shape") or ()))],
               leaves=dict(lv), frozen={k: (cm.freeze(v) if isinstance(v, SymArr) else v) for k, v in lv.items()},
               writes={k: (v.writes if isinstance(v, SymArr) else 0) for k, v in lv.items()},
+              dtypes={k: dtype_of(v) for k, v in lv.items() if v is not None},
               parts=mutable_parts(o))
 
 
@@ -1361,11 +1368,20 @@ SI_CASES = (
     + [((2, 3), ("0:2", "1"), "vec:3:full:3"), ((2, 3), ("0:2", "1"), "vec:2:even:3"), ((2, 3), ("i", "i"), "vec:1:full:2")]
     + [((2, 3), ("0",), "arr2"), ((2, 3), ("0:1",), ("arr2",)), ((2, 3), ("0:1",), ("arr2",) * 3), ((2, 3), ("[1]", "0"), "arr2")]
     + [((2, 3), ("field",), "flat"), ((2, 1, 2), ("field",), "flat"), ((3,), ("field",), "flat2d"), ((2,), ("nofield",), "flat")]
+    # `v[f] = v[f]`, `v[f] = v[g]` and the write-back that ends every augmented field operation (`v[f] += c`): the value is a field view
+    # of the same vector; cells of every element kind
+    + [((2, 3), ("field",), f"view-self:{dt}") for dt in CELL_DTYPES] + [((3,), ("field",), "view-self:int64"), ((2, 1, 2), ("field",), "view-other:complex128")]
 )
 
 
 def si_setup(ctx):
     _, (shape, specs, vk) = pick(ctx, "si_case", SI_CASES)
+    if isinstance(vk, str) and vk.startswith("view"):
+        kind, dt = vk.split(":")
+        v = mk_vec(ctx, shape, 2, "full", dtype=dt)
+        jj = 1 if kind == "view-self" else 0
+        value = Obj(FieldView, dict(vector=v, field_name=v.fields["_fields"][jj], field_index=jj))
+        return NS(self=v, idx=v.fields["_fields"][1], value=value, specs=specs, objs=[], vshape=shape, vkind=vk, case=sd_tag(shape, specs, vk))
     v = mk_vec(ctx, shape, 2, "full")
     if specs[0] in ("field", "nofield"):
         n = ctx.fresh("values_len", "int")
@@ -1387,7 +1403,10 @@ def si_field_errors(s):
     F = z3.BoolVal(False)
     known = OR(*[str_eq(nm, s.idx) for nm in s.self.fields["_fields"]])
     _, tot = offsets(populated_in_order(s.old.leaves, s.vshape))
-    bad = z3.BoolVal(True) if s.value.ndim != 1 else B(S(s.value.shape[0]) != S(tot))
+    if is_view(s.value):
+        bad = z3.BoolVal(False)  # a column of the same vector has exactly the expected length
+    else:
+        bad = z3.BoolVal(True) if s.value.ndim != 1 else B(S(s.value.shape[0]) != S(tot))
     return dict(KeyError=NOT(known), ValueError=AND(known, bad), TypeError=F, IndexError=F)
 
 
@@ -1426,7 +1445,7 @@ def si_ensures(s):
         j = [decide(s.ctx, str_eq(nm, s.idx)) for nm in old.fields].index(True)
         offs, tot = offsets(populated_in_order(old.frozen, old.shape))
         vals = s.old_values
-        return tagl(s.case, column_update_post(s.self, old, j, lambda n, k, was, r: vals.fn(lift(offs[n]) + r)))
+        return tagl(s.case, column_update_post(s.self, old, j, lambda n, k, was, r: vals.fn(lift(offs[n]) + r)) + writeback_clauses(s.self, old, j, s.value))
     multi = si_multi(s)
     cells, per_axis = addressed(s.ctx, s.specs, s.objs, s.vshape, negatives_ok=not multi)
     if cells is None:
@@ -1439,13 +1458,16 @@ def si_ensures(s):
 
 def si_snapshot(s):
     o = snap_vec(s.self)
-    o.src = snap_vec(s.value) if isinstance(s.value, Obj) else None
-    s.old_values = cm.freeze(s.value) if si_is_field(s) else None
+    o.src = snap_vec(s.value) if isinstance(s.value, Obj) and s.value.cls is Vector else None
+    if si_is_field(s):
+        s.old_values = spec_column(o, s.value.fields["field_index"]) if is_view(s.value) else cm.freeze(s.value)
+    else:
+        s.old_values = None
     return o
 
 
 C_SETITEM = Contract(f"{VEC}:Vector.__setitem__", setup=si_setup, ensures=si_ensures, snapshot=si_snapshot, on_raise=raise_inv,
-                     requires=lambda s: inv(s.self) + (inv(s.value, "Inv(value)") if isinstance(s.value, Obj) else []) + [("at-most-one-index-per-fixed-dimension", len(s.specs) <= len(s.vshape))],
+                     requires=lambda s: inv(s.self) + (inv(s.value, "Inv(value)") if isinstance(s.value, Obj) and s.value.cls is Vector else []) + [("at-most-one-index-per-fixed-dimension", len(s.specs) <= len(s.vshape))],
                      raises={ValueError: lambda s: si_errors(s)["ValueError"], IndexError: lambda s: si_errors(s)["IndexError"], TypeError: lambda s: si_errors(s)["TypeError"],
                              KeyError: lambda s: si_errors(s).get("KeyError", False)},
                      inline=[f"{VEC}:_FieldView.__init__"])
@@ -1631,12 +1653,31 @@ def vflat_ensures(s):
 C_VFLATTEN = Contract(f"{VEC}:Vector.flatten", setup=vflat_setup, requires=lambda s: inv(s.self), ensures=T(vflat_ensures), snapshot=lambda s: snap_vec(s.self))
 
 
-def mk_view(ctx, name, vecs=FLAT_VECS):
+def mk_view(ctx, name, vecs=FLAT_VECS, dtypes=None, dtype=None):
     _, (shape, mask, nf) = pick(ctx, name + "_vec", vecs)
     _, j = pick(ctx, name + "_col", list(range(nf)))
-    v = mk_vec(ctx, shape, nf, mask)
+    if dtypes:
+        _, dtype = pick(ctx, name + "_dtype", list(dtypes))
+    v = mk_vec(ctx, shape, nf, mask, dtype=dtype)
     fv = Obj(FieldView, dict(vector=v, field_name=v.fields["_fields"][j], field_index=j))
-    return fv, f"shape={shape_tag(shape)},cells={mask},nf={nf},col={j}"
+    return fv, f"shape={shape_tag(shape)},cells={mask},nf={nf},col={j}" + (f",dtype={dtype}" if dtype else "")
+
+
+def cells_dtype(leaves):
+    """The common tracked storage dtype of the populated cells (None: no populated cell / not tracked / mixed)."""
+    dts = {cm.np_dtype(a) for a in leaves.values() if isinstance(a, SymArr)}
+    return next(iter(dts)) if len(dts) == 1 else None
+
+
+def dtype_of(arr):
+    return cm.np_dtype(arr) if isinstance(arr, SymArr) else getattr(arr, "dtype", None)
+
+
+def spec_column(old, j):
+    """Specification value: the row-major concatenation of column j over the populated cells (old contents), as an array."""
+    pop = populated_in_order(old.frozen, old.shape)
+    cols = [cm.ndarray((a.shape[0],), (lambda r, _a=a: _a.fn(r, z3.IntVal(j))), dtype=cm.np_dtype(a)) for _, a in pop]
+    return cm.concat_rows(cols) if cols else np.empty((0,), dtype=float)
 
 
 def view_requires(s):
@@ -1648,7 +1689,7 @@ def view_requires(s):
 
 
 def fvflat_setup(ctx):
-    fv, case = mk_view(ctx, "fvflat")
+    fv, case = mk_view(ctx, "fvflat", dtypes=CELL_DTYPES)
     return NS(self=fv, case=case)
 
 
@@ -1666,6 +1707,9 @@ def fvflat_ensures(s):
         out.append(("values-are-the-row-major-concatenation-of-that-column-over-the-populated-cells",
                     AND(*[forall([r], implies(AND(r >= 0, r < lift(a.shape[0])), lift(res.fn(lift(off) + r)) == lift(a.fn(r, z3.IntVal(j))))) for (k, a), off in zip(pop, offs)])
                     if isinstance(res, SymArr) else len(pop) == 0 or all(V._dim_lit(a.shape[0]) == 0 for _, a in pop)))
+        dt = cells_dtype(old.leaves)
+        if dt is not None:
+            out.append(("element-kind:dtype-is-the-dtype-of-the-cells", dtype_of(res) == dt))
     return out + unchanged(v, old)
 
 
@@ -1678,11 +1722,33 @@ def fvflat_result(ctx, s):
     _, tot = offsets(pop)
     a = ctx.fresh_arr("flat", (tot,), "real")
     a.as_type = np.ndarray
-    return a
+    return cm.tag(a, cells_dtype(lv))
 
 
 C_FV_FLATTEN = Contract(f"{VEC}:_FieldView.flatten", setup=fvflat_setup, requires=view_requires, ensures=T(fvflat_ensures), result=fvflat_result,
                         snapshot=lambda s: snap_vec(s.self.fields["vector"]))
+
+
+# ---- the array form of a field view: np.asarray(view) / what `v[field] = view` and every augmented field operation write back
+
+
+class InlinedAtCallSites(Contract):
+    """Verified against its contract like any other function; at call sites the (one-line) body is interpreted in place, so a
+    caller's postcondition does not rest on this contract (a defect here ALSO fails the callers' clauses by name)."""
+
+    def apply(self, interp, args, kwargs):
+        interp.ctx.ghost.setdefault("inlined", set()).add(self.func)
+        return interp.call_closure(interp.closure_of(self.real), args, kwargs)
+
+
+def fvarr_setup(ctx):
+    fv, case = mk_view(ctx, "fvarr", dtypes=CELL_DTYPES)
+    return NS(self=fv, case=case)
+
+
+C_FV_ARRAY = InlinedAtCallSites(f"{VEC}:_FieldView.__array__", setup=fvarr_setup, requires=view_requires,
+                                ensures=T(lambda s: [("array-form-is-flatten():" + lab, t) for lab, t in fvflat_ensures(s)]),
+                                snapshot=lambda s: snap_vec(s.self.fields["vector"]))
 
 
 # ---- in-place column updates: set_flattened, _apply_op and the arithmetic operators
@@ -1720,12 +1786,26 @@ def havoc_cells(ctx, v):
             a.writes += 1
 
 
-SETFLAT_VALUES = ["vec1", "vec2"]
+VIEW_VECS = [((1,), "full", 2), ((3,), "first", 2), ((2, 2), "odd", 2), ((2, 1, 2), "even", 2), ((2, 3), "full", 1)]
+SETFLAT_VALUES = ["vec1", "vec2"] + [f"view-self:{dt}" for dt in CELL_DTYPES] + ["view-other:int64", "view-other:float64"]
+
+
+def is_view(x):
+    return isinstance(x, Obj) and x.cls is FieldView
 
 
 def sf_setup(ctx):
-    fv, case = mk_view(ctx, "sf")
     _, vk = pick(ctx, "sf_values", SETFLAT_VALUES)
+    if vk.startswith("view"):
+        # `v[f] = v[f]` / `v[f] = v[g]` / the write-back of `v[f] += c`: the values are a field view of the SAME vector
+        kind, dt = vk.split(":")
+        fv, case = mk_view(ctx, "sf", vecs=VIEW_VECS, dtype=dt)
+        v, j = fv.fields["vector"], fv.fields["field_index"]
+        nf = len(v.fields["_fields"])
+        jj = j if kind == "view-self" else (j + 1) % nf
+        values = Obj(FieldView, dict(vector=v, field_name=v.fields["_fields"][jj], field_index=jj))
+        return NS(self=fv, values=values, case=case.replace(f",dtype={dt}", "") + f",values={vk}")
+    fv, case = mk_view(ctx, "sf")
     n = ctx.fresh("values_len", "int")
     ctx.assume(n.t >= 0)
     if vk == "vec1":
@@ -1745,6 +1825,11 @@ def sf_total(s):
 
 def sf_value_error(s):
     vals = s.values
+    if is_view(vals):
+        if vals.fields["vector"] is s.self.fields["vector"]:
+            return False  # a column of the same vector has exactly the expected length
+        _, other = offsets(populated_in_order(leaves_of(vals.fields["vector"]), vals.fields["vector"].fields["_shape"]))
+        return B(S(other) != S(sf_total(s)))
     if not is_cell_array(vals):
         return False
     if vals.ndim != 1:
@@ -1759,17 +1844,35 @@ def sf_ensures(s):
     pop = populated_in_order(old.frozen, old.shape)
     offs, tot = offsets(pop)
     vals = s.old_values
-    return column_update_post(v, old, j, lambda n, k, was, r: vals.fn(lift(offs[n]) + r)) + [("returns-None", s.result is None)]
+    out = column_update_post(v, old, j, lambda n, k, was, r: vals.fn(lift(offs[n]) + r)) + [("returns-None", s.result is None)]
+    return out + writeback_clauses(v, old, j, s.values)
+
+
+def writeback_clauses(v, old, j, values):
+    """Element kind: an in-place column update never changes the dtype of a cell; writing a field back to itself restores the data exactly."""
+    lv = leaves_of(v) or {}
+    out = [("element-kind:cell-dtypes-unchanged", all(dtype_of(lv.get(k)) == dt for k, dt in old.dtypes.items()))]
+    if is_view(values) and values.fields["vector"] is v and values.fields["field_index"] == j:
+        pop = populated_in_order(old.frozen, old.shape)
+        out.append(("writing-a-field-back-to-itself-restores-the-data-exactly",
+                    AND(*[arrays_equal(lv[k], was) if isinstance(lv.get(k), SymArr) else z3.BoolVal(False) for k, was in pop]) if pop else z3.BoolVal(True)))
+    return out
 
 
 def sf_snapshot(s):
     o = snap_vec(s.self.fields["vector"])
-    s.old_values = cm.freeze(s.values) if isinstance(s.values, SymArr) else s.values
+    if is_view(s.values):
+        # the values a view stands for: the row-major concatenation of ITS column at the time of the call
+        src = o if s.values.fields["vector"] is s.self.fields["vector"] else snap_vec(s.values.fields["vector"])
+        s.old_values = spec_column(src, s.values.fields["field_index"])
+    else:
+        s.old_values = cm.freeze(s.values) if isinstance(s.values, SymArr) else s.values
     return o
 
 
 C_FV_SETFLAT = Contract(f"{VEC}:_FieldView.set_flattened", setup=sf_setup, ensures=T(sf_ensures), snapshot=sf_snapshot,
-                        requires=lambda s: view_requires(s) + [("values-is-an-array", is_cell_array(s.values))],
+                        requires=lambda s: view_requires(s) + [("values-is-an-array-or-a-field-view", is_cell_array(s.values) or is_view(s.values))]
+                        + (inv(s.values.fields["vector"], "Inv(values.vector)") if is_view(s.values) and s.values.fields["vector"] is not s.self.fields["vector"] else []),
                         modifies=lambda ctx, s: havoc_cells(ctx, s.self.fields["vector"]),
                         raises={ValueError: sf_value_error},
                         on_raise=lambda s, E: tagl(s.case, conj("vector-unchanged-when-an-exception-escapes", same_schema(s.self.fields["vector"], s.old) + data_untouched(s.self.fields["vector"], s.old))))
@@ -1993,7 +2096,7 @@ C_SET_DATA_PROP = Contract(f"{VEC}:Vector.data.fset", setup=ds_setup, requires=l
 C_SET_DATA_PROP.posts_first = True
 
 CONTRACTS = [C_NESTED, C_VSHAPE, C_VFIELDS, C_VNUM, C_VUNITS, C_VDATA, C_VINFER, C_INIT, C_FROM_SHAPE, C_COPY, C_GET_DATA, C_GETITEM, C_SET_DATA, C_SETITEM,
-             C_ADD_FIELDS, C_REMOVE_FIELDS, C_VFLATTEN, C_FV_FLATTEN, C_FV_SETFLAT, C_FV_APPLY] + C_ARITH + [C_FROM_DATA, C_SET_UNITS, C_SET_DATA_PROP, C_FV_GETITEM]
+             C_ADD_FIELDS, C_REMOVE_FIELDS, C_VFLATTEN, C_FV_FLATTEN, C_FV_SETFLAT, C_FV_APPLY] + C_ARITH + [C_FROM_DATA, C_SET_UNITS, C_SET_DATA_PROP, C_FV_GETITEM, C_FV_ARRAY]
 
 
 # ================================================================================================
@@ -2147,15 +2250,10 @@ class Ref:
 
     def flatten(self):
         p = self.populated()
-        out = np.zeros((sum(a.shape[0] for a in p), self.nf))
-        pos = 0
-        for a in p:
-            out[pos:pos + a.shape[0]] = a
-            pos += a.shape[0]
-        return out
+        return np.concatenate(p, axis=0) if p else np.zeros((0, self.nf))  # the row-major concatenation (element kind of the cells)
 
     def field_flatten(self, name):
-        return self.flatten()[:, self.fields.index(name)] if self.populated() else np.zeros((0,))
+        return self.flatten()[:, self.fields.index(name)].copy() if self.populated() else np.zeros((0,))
 
     def set_flattened(self, name, values):
         if name not in self.fields:
@@ -2232,15 +2330,26 @@ def state_diff(v, ref):
             return f"cell {k}: {'unset' if a is None else 'set'} but expected {'unset' if b is None else 'set'}"
         if a is not None and (not isinstance(a, np.ndarray) or a.shape != b.shape or not np.array_equal(a, b)):
             return f"cell {k}: {np.asarray(a).tolist()} != {b.tolist()}"
+        if a is not None and a.dtype != b.dtype:
+            return f"cell {k}: dtype {a.dtype} != {b.dtype}"
     return None
 
 
-def cell_array(k, rows, nf, salt=0):
-    base = 100.0 * (sum((i + 1) * 7 ** n for n, i in enumerate(k)) + salt)
-    return base + np.arange(rows * nf, dtype=float).reshape(rows, nf)
+def cell_array(k, rows, nf, salt=0, dtype=None):
+    """Distinguishable contents; for the non-float64 element kinds the values are NOT exactly representable in float64 / float32."""
+    tagv = sum((i + 1) * 7 ** n for n, i in enumerate(k)) + salt
+    if dtype in (None, "float64"):
+        return 100.0 * tagv + np.arange(rows * nf, dtype=float).reshape(rows, nf)
+    if dtype == "int64":
+        return (2 ** 53 + 1 + 1000 * tagv + 2 * np.arange(rows * nf, dtype=np.int64)).reshape(rows, nf)
+    if dtype == "complex128":
+        return (100.0 * tagv + np.arange(rows * nf) + 1j * (1 + tagv + np.arange(rows * nf))).reshape(rows, nf)
+    if dtype == "float32":
+        return (np.float32(0.1) * (1 + tagv + np.arange(rows * nf, dtype=np.float32))).reshape(rows, nf)
+    raise ValueError(dtype)
 
 
-def build_pair(shape, nf, mask, rows=None, names=None):
+def build_pair(shape, nf, mask, rows=None, names=None, dtype=None):
     """A real Vector and its reference twin with the same (separately allocated) contents."""
     from quantem.core.datastructures.vector import Vector as RV
 
@@ -2254,7 +2363,7 @@ def build_pair(shape, nf, mask, rows=None, names=None):
         if MASKS[mask](k):
             n += 1
             r = rows[n % len(rows)] if rows else ROWS_PATTERN[n % len(ROWS_PATTERN)]
-            a = cell_array(k, r, nf)
+            a = cell_array(k, r, nf, dtype=dtype)
             ref.cells[k] = a.copy()
             tgt = v._data
             for i in k[:-1]:
@@ -2548,7 +2657,7 @@ def rt_create(inp):
 def rt_fields(inp):
     """add_fields / remove_fields / flatten / field flatten / set_flattened / field arithmetic on one concrete case."""
     op, shape, nf, mask = inp["op"], tuple(inp["shape"]), inp.get("nf", 2), inp.get("mask", "even")
-    v, ref = build_pair(shape, nf, mask, rows=inp.get("rows"))
+    v, ref = build_pair(shape, nf, mask, rows=inp.get("rows"), dtype=inp.get("dtype"))
     col = inp.get("col", 0) % max(nf, 1)
     name = f"f{col}"
     problems = []
@@ -2597,6 +2706,24 @@ def rt_fields(inp):
             back = v[name].flatten()
             if not np.array_equal(back, vals):
                 problems.append(f"flatten after set_flattened gives {back.tolist()}, wrote {vals.tolist()}")
+    elif op == "asarray":
+        # the array form of a field view (np.asarray(view), what `v[f] = view` writes back) IS its flattened view: same dtype, same values
+        want = ref.field_flatten(name)
+        got = np.asarray(v[name])
+        if not (isinstance(got, np.ndarray) and got.shape == want.shape and np.array_equal(got, want)):
+            problems.append(f"np.asarray(v[{name!r}]) = {np.asarray(got).tolist()[:4]}.., flattened field = {want.tolist()[:4]}..")
+        elif want.size and got.dtype != want.dtype:
+            problems.append(f"np.asarray(v[{name!r}]) has dtype {got.dtype}, the field's flattened view has dtype {want.dtype}")
+    elif op in ("self_assign", "iadd_zero", "assign_other"):
+        # writing a field back (to itself / the write-back that ends `v[f] += 0`) restores the data exactly and keeps the cell dtype
+        if op == "self_assign":
+            v[name] = v[name]
+        elif op == "iadd_zero":
+            v[name] += 0
+        else:
+            other = f"f{(col + 1) % nf}"
+            v[name] = v[other]
+            ref.set_flattened(name, ref.field_flatten(other))
     elif op == "roundtrip":
         before = ref.copy()
         v[name].set_flattened(v[name].flatten())
@@ -2723,16 +2850,25 @@ def rf_inputs():
     return out
 
 
-def flat_inputs(op, vecs=None, extra=()):
+def flat_inputs(op, vecs=None, extra=(), dtypes=(None,)):
     out = []
     for shape, mask, nf in (vecs or FLAT_VECS):
         for col in range(nf if op != "flatten" else 1):
             for rows in (None, [0, 0, 0], [1, 4, 2]):
-                base = dict(op=op, shape=list(shape), mask=mask, nf=nf, col=col, rows=rows)
-                out.append(base)
-                for e in extra:
-                    out.append(dict(base, **e))
+                for dt in dtypes:
+                    base = dict(op=op, shape=list(shape), mask=mask, nf=nf, col=col, rows=rows)
+                    if dt:
+                        base["dtype"] = dt
+                    out.append(base)
+                    for e in extra:
+                        out.append(dict(base, **e))
     return out
+
+
+def kind_inputs():
+    """Element kinds: array form of a view, self-assignment, `+= 0`, assignment from another field, flatten, for every cell dtype."""
+    return [x for op in ("asarray", "self_assign", "iadd_zero", "assign_other", "field_flatten", "flatten", "snapshot_restore", "roundtrip")
+            for x in flat_inputs(op, VIEW_VECS, dtypes=CELL_DTYPES)]
 
 
 C_NESTED.rt, C_NESTED.rt_family = rt_create, simple_family([dict(op="nested_list", shape=list(sh)) for sh in SHAPES_ALL])
@@ -2767,8 +2903,10 @@ C_VINFER.concretize = conc_index_into(["vi_items"], lambda ev, k: dict(op="from_
 C_ADD_FIELDS.rt, C_ADD_FIELDS.rt_family = rt_fields, simple_family(af_inputs())
 C_REMOVE_FIELDS.rt, C_REMOVE_FIELDS.rt_family = rt_fields, simple_family(rf_inputs())
 C_VFLATTEN.rt, C_VFLATTEN.rt_family = rt_fields, simple_family(flat_inputs("flatten"))
-C_FV_FLATTEN.rt, C_FV_FLATTEN.rt_family = rt_fields, simple_family(flat_inputs("field_flatten") + flat_inputs("snapshot_restore"))
-C_FV_SETFLAT.rt, C_FV_SETFLAT.rt_family = rt_fields, simple_family(flat_inputs("set_flattened", extra=(dict(values_len=1), dict(values="vec2"))) + flat_inputs("roundtrip"))
+C_FV_FLATTEN.rt, C_FV_FLATTEN.rt_family = rt_fields, simple_family(flat_inputs("field_flatten", dtypes=[None] + CELL_DTYPES[1:]) + flat_inputs("snapshot_restore"))
+C_FV_SETFLAT.rt, C_FV_SETFLAT.rt_family = rt_fields, simple_family(flat_inputs("set_flattened", extra=(dict(values_len=1), dict(values="vec2"))) + flat_inputs("roundtrip")
+                                                                   + [x for op in ("self_assign", "iadd_zero", "assign_other") for x in flat_inputs(op, VIEW_VECS, dtypes=CELL_DTYPES)])
+C_FV_ARRAY.rt, C_FV_ARRAY.rt_family = rt_fields, simple_family(flat_inputs("asarray", dtypes=CELL_DTYPES))
 C_FV_APPLY.rt, C_FV_APPLY.rt_family = rt_fields, simple_family(flat_inputs("apply"))
 for _c in C_ARITH:
     _n = _c.func.rsplit(".", 1)[1]
@@ -2790,9 +2928,24 @@ def _vec_conc(pick, vecs, op, extra=None):
 
 
 C_VFLATTEN.concretize = conc_index_into(["vflat_vec"], _vec_conc("vflat_vec", FLAT_VECS, "flatten"))
-C_FV_FLATTEN.concretize = conc_index_into(["fvflat_vec", "fvflat_col"], _vec_conc("fvflat_vec", FLAT_VECS, "field_flatten", lambda ev, nf, c: dict(col=c)))
-C_FV_SETFLAT.concretize = conc_index_into(["sf_vec", "sf_col", "sf_values"], _vec_conc("sf_vec", FLAT_VECS, "set_flattened",
-                                          lambda ev, nf, c, vk: dict(col=c, values=SETFLAT_VALUES[vk], values_len=ev("values_len"))))
+C_FV_FLATTEN.concretize = conc_index_into(["fvflat_vec", "fvflat_col", "fvflat_dtype"], _vec_conc("fvflat_vec", FLAT_VECS, "field_flatten", lambda ev, nf, c, d: dict(col=c, dtype=CELL_DTYPES[d])))
+C_FV_ARRAY.concretize = conc_index_into(["fvarr_vec", "fvarr_col", "fvarr_dtype"], _vec_conc("fvarr_vec", FLAT_VECS, "asarray", lambda ev, nf, c, d: dict(col=c, dtype=CELL_DTYPES[d])))
+
+
+def _sf_conc(ev):
+    vk = ev("sf_values")
+    if vk is None or ev("sf_vec") is None:
+        return None
+    kind = SETFLAT_VALUES[vk]
+    if kind.startswith("view"):
+        k, dt = kind.split(":")
+        shape, mask, nf = VIEW_VECS[ev("sf_vec")]
+        return dict(op="self_assign" if k == "view-self" else "assign_other", shape=list(shape), mask=mask, nf=nf, col=ev("sf_col", 0), dtype=dt)
+    return conc_index_into(["sf_vec", "sf_col"], _vec_conc("sf_vec", FLAT_VECS, "set_flattened",
+                                                           lambda ev, nf, c: dict(col=c, values=kind, values_len=ev("values_len"))))(ev)
+
+
+C_FV_SETFLAT.concretize = _sf_conc
 C_FV_APPLY.concretize = conc_index_into(["ao_vec", "ao_col"], _vec_conc("ao_vec", FLAT_VECS, "apply", lambda ev, nf, c: dict(col=c)))
 
 
@@ -3094,8 +3247,10 @@ BOUNDED = [
                     "enumerated argument combinations", klass=create_klass),
     Bounded.from_rt("field operations and flatten / set_flattened on concrete vectors", rt_fields,
                     lambda: iter(af_inputs() + rf_inputs() + flat_inputs("flatten") + flat_inputs("field_flatten") + flat_inputs("set_flattened", extra=(dict(values_len=1), dict(values="vec2")))
-                                 + flat_inputs("roundtrip") + flat_inputs("snapshot_restore") + flat_inputs("apply") + [x for n in ARITH for x in flat_inputs(n, ARITH_VECS)]),
-                    "7 shapes x cell masks x row patterns (incl. zero rows) x every column", klass=lambda inp, res: inp["op"]),
+                                 + flat_inputs("roundtrip") + flat_inputs("snapshot_restore") + flat_inputs("apply") + [x for n in ARITH for x in flat_inputs(n, ARITH_VECS)]
+                                 + kind_inputs()),
+                    "10 shapes x cell masks x row patterns (incl. zero rows) x every column; element kinds float64 / int64 above 2**53 / complex128 / float32 for the field-view paths",
+                    klass=lambda inp, res: inp["op"] + (f"|dtype={inp['dtype']}" if inp.get("dtype") else "")),
 ]
 
 # ------------------------------------------------------------------------------------------------
